@@ -32,7 +32,7 @@ RULE = ('Hypothesis draws a small registered model (hierarchies, enums, '
 ASSUMPTIONS = [
     '"recognisable as that type" = the reference matcher finds at least one '
     'matching type (an ambiguous attribute is still recognisable)',
-    'nodes with duplicate keys are outside the domain (counted, skipped)',
+    'for nodes with duplicate keys no predicate is asserted (undocumented which occurrence counts): only that the helper returns or raises RecognitionError and leaves the node unmodified',
     'UnknownNode is constructed directly with a Recognizer built from the '
     'load function\'s registered classes, as the loader does',
 ]
@@ -143,6 +143,16 @@ def cases(draw):
             if vs:
                 lit = lit_of_scalar(vs[0])
         call = [kind, name, lit]
+    if t[0] == 'm' and t[1] and draw(st.integers(0, 7)) == 0:
+        # the attribute written twice: which of the two counts is not documented
+        # (no predicate is asserted), but the helper still either returns or
+        # raises RecognitionError, and leaves the node alone
+        t = copy.deepcopy(t)
+        named = [pr for pr in t[1] if pr[0][1] == name]
+        pr = copy.deepcopy(named[0] if named else t[1][0])
+        if draw(st.booleans()):
+            pr[1] = draw(gen.scalar_trees(spec))
+        t[1].insert(draw(st.integers(0, len(t[1]))), pr)
     return {'model': spec, 'tree': t, 'call': call}
 
 
@@ -186,8 +196,10 @@ def check(case, ctx):
         except refsem.Reject:
             want = False
     except refsem.Unsupported:
-        ctx.count('reference_unsupported')
-        return
+        # e.g. duplicate keys: no documented answer; only "returns or raises
+        # RecognitionError" and purity are checked
+        ctx.count('reference_unsupported_weak_oracle_only')
+        want = None
     L = m.load.loader
     un = UnknownNode(Recognizer(L._registered_classes, L._additional_classes), ynode)
     try:
@@ -198,6 +210,13 @@ def check(case, ctx):
     except Exception as e:
         ctx.finding('exception', call[0] + ':' + exc_signature(e),
                     '%s raised %s: %s\n  node: %s\n  model: %s' % (call, type(e).__name__, e, text, spec))
+        return
+    if want is None:
+        after = T.plain(un.yaml_node)
+        if after != before or T.plain(ynode) != before:
+            ctx.finding('purity', call[0] + ':node_modified',
+                        '%s modified the node\n  before: %r\n  after:  %r\n  model: %s'
+                        % (call, before, after, spec))
         return
     ctx.count('%s_%s' % (call[0], 'pass' if want else 'fail'))
     present = call[0].startswith('attr') and node[0] == 'm' and pt.has(node, call[1])
